@@ -14,10 +14,12 @@ def emit(out, tier):
     out.add_tlc("MC_Process", r)
     if r.violated:
         out.violation("spec:%s" % r.violated, "Process.tla violates %s" % r.violated, r.out[-3000:])
-    rb = C.run_tlc("MC_Process", cfg="MC_ProcessBroken.cfg", workers=4, timeout=1200)
-    out.tlc_runs.append(dict(name="MC_ProcessBroken (must be refuted)", **rb.summary()))
-    if not rb.violated:
-        out.machinery.append("vacuity: the model with a read before SetGlobals was not refuted")
+    for cfg, what in (("MC_ProcessBroken.cfg", "a read before SetGlobals"), ("MC_ProcessBrokenOpt.cfg", "a correction applied to the caller's options"),
+                      ("MC_ProcessBrokenTab.cfg", "an override written into a shared table")):
+        rb = C.run_tlc("MC_Process", cfg=cfg, workers=4, timeout=1200)
+        out.tlc_runs.append(dict(name=cfg[:-4] + " (must be refuted)", **rb.summary()))
+        if not rb.violated:
+            out.machinery.append("vacuity: the model with %s was not refuted" % what)
     r2 = C.run_tlc("MC_Process", cfg="MC_ProcessEmit.cfg" if tier == "quick" else "MC_ProcessEmit3.cfg", workers=1, timeout=3000)
     out.add_tlc("MC_ProcessEmit", r2)
     cases = []
@@ -33,7 +35,12 @@ def emit(out, tier):
 def run_types():
     P = presets.all_presets()
     bad = dict(P["net_baseline"], waste="no_such_waste_level")
+    # a "known to fail" combination for ALB (corrected to shutoff=immediate for that country only)
+    kf = dict(P["net_nuclear_resilient"], scenario="seaweed", shutoff="continued", cull="do_eat_culled", NMONTHS=72)
     return {
+        "r_alb_kf": dict(cc="ALB", preset="known_to_fail_for_ALB", options=kf),
+        "r_arg_kf": dict(cc="ARG", preset="known_to_fail_for_ALB", options=kf),
+        "r_arg_herd": dict(cc="ARG", preset="net_baseline_custom_herd", options=dict(P["net_baseline"], meat_cattle_head=5000000, pig_head=100000)),
         "r_arg_base": dict(cc="ARG", preset="net_baseline", options=P["net_baseline"]),
         "r_usa_nw": dict(cc="USA", preset="net_nuclear_winter", options=dict(P["net_nuclear_winter"], NMONTHS=84)),
         "r_dji_res": dict(cc="DJI", preset="net_nuclear_resilient", options=P["net_nuclear_resilient"]),
@@ -42,8 +49,9 @@ def run_types():
     }
 
 
-def digest(rec):
-    d = {k: v for k, v in rec.items() if k not in ("wall", "tb", "job")}
+def digest(rec, joined=False):
+    # (for a run inside a shared by-country call the call's return value and console text cover both countries)
+    d = {k: v for k, v in rec.items() if k not in (("wall", "tb", "job", "returned", "flags") if joined else ("wall", "tb", "job"))}
     return hashlib.sha256(json.dumps(d, sort_keys=True).encode()).hexdigest(), d
 
 
@@ -53,7 +61,7 @@ def run_c14(pid, tier):
                 "failing one; thorough: length <= 3) are each executed in one fresh process; every run's full observation (headline, "
                 "all monthly series, LP values, herd trajectories, hand-offs) is compared bit for bit with the same run alone in a fresh process")
     cases = [c for c in emit(out, tier) if c["k"] == "History"]
-    hists = sorted({tuple(c["h"]) for c in cases})
+    hists = sorted({tuple((r, bool(j)) for r, j in zip(c["h"], c["joined"])) for c in cases})
     if not hists:
         out.machinery.append("no histories emitted")
         return out.finish()
@@ -61,9 +69,21 @@ def run_c14(pid, tier):
     wd = C.workdir()
     scratch = C.scratch_repo()
     procs = []
+    targets = {}
     for i, h in enumerate(hists):
         jf = os.path.join(wd, "hist_%d.json" % i)
-        json.dump([RT[r] for r in h], open(jf, "w"))
+        # a run joined to its predecessor runs in the same by-country call (one option dictionary for both countries)
+        jobs = []
+        targets[h] = []
+        for k, (r, j) in enumerate(h):
+            job = dict(RT[r])
+            if k + 1 < len(h) and h[k + 1][1]:
+                continue  # executed inside the next job's call
+            if j:
+                job["with"] = [RT[h[k - 1][0]]["cc"]]
+            jobs.append(job)
+            targets[h].append((k, r, j))
+        json.dump(jobs, open(jf, "w"))
         procs.append((h, os.path.join(wd, "hist_%d.ndjson.gz" % i), jf))
     running = []
     outs = {}
@@ -91,29 +111,33 @@ def run_c14(pid, tier):
         reap(True)
     solo = {}
     for r in RT:
-        if (r,) in outs:
-            solo[r] = digest(outs[(r,)][0])
+        if ((r, False),) in outs:
+            rec0 = outs[((r, False),)][0]
+            solo[r] = (digest(rec0), digest(rec0, joined=True))
     nruns = 0
     for h, recs in sorted(outs.items()):
-        for i, (r, rec) in enumerate(zip(h, recs)):
+        names = [r for r, _ in h]
+        for (i, r, j), rec in zip(targets[h], recs):
             nruns += 1
             if rec.get("recorder_error"):
                 out.machinery.append("recorder: " + rec["recorder_error"])
                 continue
-            dg, d = digest(rec)
-            if r in solo and dg != solo[r][0]:
-                diff = [k for k in d if json.dumps(d[k], sort_keys=True) != json.dumps(solo[r][1].get(k), sort_keys=True)]
-                out.violation("HistoryIndependent:%s-after-%s" % (r, "+".join(h[:i]) or "nothing"),
-                              "run %s at position %d of history %s differs from the same run alone in: %s" % (r, i + 1, list(h), diff[:6]),
-                              dict(history=list(h), position=i, differing_fields=diff))
+            dg, d = digest(rec, joined=j)
+            if r in solo and dg != solo[r][1 if j else 0][0]:
+                ref = solo[r][1 if j else 0][1]
+                diff = [k for k in d if json.dumps(d[k], sort_keys=True) != json.dumps(ref.get(k), sort_keys=True)]
+                out.violation("HistoryIndependent:%s-after-%s%s" % (r, "+".join(names[:i]) or "nothing", ":same-call" if j else ""),
+                              "run %s at position %d of history %s%s differs from the same run alone in: %s"
+                              % (r, i + 1, names, " (in the same by-country call as its predecessor)" if j else "", diff[:6]),
+                              dict(history=[list(x) for x in h], position=i, differing_fields=diff))
         out.distinct.add(h)
-    expected_fail = [h for h, recs in outs.items() for r, rec in zip(h, recs) if r == "r_bad" and rec.get("ok")]
+    expected_fail = [h for h, recs in outs.items() for (i, r, j), rec in zip(targets[h], recs) if r == "r_bad" and rec.get("ok")]
     if expected_fail:
         out.machinery.append("the failing run type unexpectedly succeeded")
     out.traces = len(outs)
     out.evaluations = nruns
     out.distinct_n = len(outs)
-    out.sample(dict(history=list(hists[len(hists) // 2]), run_types={k: (v["cc"], v["preset"]) for k, v in RT.items()}))
+    out.sample(dict(history=[list(x) for x in hists[len(hists) // 2]], run_types={k: (v["cc"], v["preset"]) for k, v in RT.items()}))
     out.assumptions = ["'identical' is bitwise equality of the recorded observation (JSON of all floats) except wall time and traceback text",
                        "histories are bounded in length and drawn from five run types that differ in population, nutrition profile, horizon, "
                        "scale and resilient foods; one run type fails after option parsing"]
